@@ -1,3 +1,3 @@
 (* C08 — all property theorems (parts are checked one by one by bin/check, so that a failing table obligation
    un-discharges only the theorems that depend on it; this file is what coqchk re-checks). *)
-From G08 Require Export C08_handover C08_converse C08_ops C08_addr C08_once C08_timed C08_free.
+From G08 Require Export C08_handover C08_converse C08_ops C08_safety C08_addr C08_once C08_timed C08_free.
